@@ -441,9 +441,65 @@ func corpus() []scenario {
 			add("flat depth zero-ish", flat, limitsSpec{MaxFile: 1 << 40, MaxTotal: 1 << 50, MaxCount: 1 << 20, MaxDepth: dlt, Recursive: rec})
 		}
 	}
+	// the back end refuses to remove an unzipped nested archive: it is in neither the total nor the count, so success would leave more than the limits allow
+	for _, lv := range []int{1, 2} {
+		b := bomb(lv, 1, 500)
+		fpb := footprintOf(build(&b), true)
+		for _, p := range nestedArchivePaths(build(&b), true) {
+			cs = append(cs, scenario{Archive: b, Note: "removal of an unzipped nested archive refused, limits exactly what the content needs",
+				Limits: limitsSpec{MaxFile: 1 << 40, MaxTotal: fpb.Total, MaxCount: fpb.Entries, MaxDepth: -1, Recursive: true},
+				Fault:  &faultSpec{Op: "Remove", K: 1, Persistent: true, Path: p}})
+		}
+		cs = append(cs, scenario{Archive: b, Note: "every removal refused", Limits: limitsSpec{MaxFile: 1 << 40, MaxTotal: fpb.Total, MaxCount: fpb.Entries, MaxDepth: -1, Recursive: true},
+			Fault: &faultSpec{Op: "Remove", K: 1, Persistent: true}})
+		cs = append(cs, scenario{Archive: b, Note: "removal fault, not recursive (nothing is removed)", Limits: noLimit(false, -1), Fault: &faultSpec{Op: "Remove", K: 1, Persistent: true}})
+	}
 	add("empty archive", archiveSpec{}, limitsSpec{MaxFile: 22, MaxTotal: 0, MaxCount: 0, MaxDepth: 0, Recursive: true})
 	add("empty archive, per-file limit below the archive size", archiveSpec{}, limitsSpec{MaxFile: 21, MaxTotal: 0, MaxCount: 0, MaxDepth: 0, Recursive: true})
 	add("top-level non-zip", archiveSpec{Garbage: true}, noLimit(true, -1))
 	add("unsupported method", archiveSpec{Entries: []entrySpec{file("m.txt", 12, 99)}}, noLimit(true, -1))
 	return cs
+}
+
+var faultOps = []string{"Remove", "Remove", "MkdirAll", "OpenFile", "Open", "f.Write", "f.Read", "f.Close", "f.Close", "Chtimes"}
+
+// snug limits: exactly (or one above) what a complete extraction of the archive needs
+func snugLimits(r *h.Run, a *archiveSpec, recursive bool) limitsSpec {
+	fp := footprintOf(build(a), recursive)
+	l := limitsSpec{Recursive: recursive, MaxDepth: -1}
+	for _, s := range append(append([]int64{22}, fp.Sizes...), fp.ArchSizes...) {
+		if s > l.MaxFile {
+			l.MaxFile = s
+		}
+	}
+	l.MaxTotal = fp.Total + uint64(r.Rng.Intn(2))
+	l.MaxCount = fp.Entries + int64(r.Rng.Intn(2))
+	if r.Rng.Intn(2) == 0 && fp.MaxDepth >= 0 {
+		l.MaxDepth = fp.MaxDepth
+	}
+	return l
+}
+
+func genFaultScenario(r *h.Run) scenario {
+	g := &genCtx{r: r}
+	nesting := nestingTable[6+r.Rng.Intn(len(nestingTable)-6)] // at least one level most of the time
+	if r.Rng.Intn(4) == 0 {
+		nesting = 0
+	}
+	a := g.archive(nesting, true)
+	recursive := r.Rng.Intn(4) > 0
+	sc := scenario{Archive: a, Limits: snugLimits(r, &a, recursive), Note: fmt.Sprintf("fault nesting=%d", nesting)}
+	ba := build(&sc.Archive)
+	if paths := nestedArchivePaths(ba, recursive); len(paths) > 0 && r.Rng.Intn(5) < 2 {
+		sc.Fault = &faultSpec{Op: "Remove", K: 1, Persistent: true, Path: paths[r.Rng.Intn(len(paths))]}
+		return sc
+	}
+	dry := execute(&sc, ba) // how many operations of each kind the extraction performs
+	op := faultOps[r.Rng.Intn(len(faultOps))]
+	n := dry.OpCount[op]
+	if n == 0 {
+		op, n = "OpenFile", max(dry.OpCount["OpenFile"], 1)
+	}
+	sc.Fault = &faultSpec{Op: op, K: 1 + r.Rng.Intn(n), Persistent: r.Rng.Intn(2) == 0}
+	return sc
 }
